@@ -101,13 +101,28 @@ structure Ctx where
   hash : Hash      -- sendBlock.Hash (the id of an entry created by this call)
   deriving Repr
 
-/-- a descendant send block returned by a method; `burn` = addressed to the token contract with the Burn call -/
+/-- the call a descendant send block carries: none (plain transfer), the token contract's Burn, or its Mint -/
+inductive PayCall where
+  | none
+  | burn
+  | mint (tok : Tok) (amt : Nat) (to : Addr)
+  deriving DecidableEq, Repr
+
+/-- a descendant send block returned by a method -/
 structure Payout where
   dst : Addr
   tok : Tok
   amt : Nat
-  burn : Bool := false
+  call : PayCall := .none
   deriving DecidableEq, Repr
+
+/-- send-time validation of a descendant addressed to an embedded contract: only the token contract's Burn with a
+    positive amount and its Mint of a positive amount carried by a zero-amount block are ever produced -/
+def PayCall.validFor (c : PayCall) (dst : Addr) (amt : Nat) : Bool :=
+  match c with
+  | .none => false
+  | .burn => dst == tokenContract && decide (amt > 0)
+  | .mint _ m _ => dst == tokenContract && decide (m > 0) && amt == 0
 
 abbrev Method (σ : Type) := σ → Ctx → Option (σ × List Payout)
 
@@ -146,7 +161,7 @@ def cancelFuse (id : Hash) : Method Plasma := fun s c =>
         let rest : Int := (s.fusedOf f.beneficiary : Int) - f.amount
         let fused' := if rest = 0 then erase f.beneficiary s.fused
                       else put f.beneficiary (if rest < 0 then rest + (2 ^ 256 : Int) else rest).toNat s.fused
-        some ({ fusions := erase (c.sender, id) s.fusions, fused := fused' }, [⟨c.sender, qsrTok, f.amount, false⟩])
+        some ({ fusions := erase (c.sender, id) s.fusions, fused := fused' }, [⟨c.sender, qsrTok, f.amount, .none⟩])
 
 /-- Σ of all fusion entries (QSR) -/
 def Plasma.owed (s : Plasma) : Nat := total (·.amount) s.fusions
@@ -198,7 +213,7 @@ def cancelStake (id : Hash) : Method Stake := fun s c =>
     | some e =>
       if e.expiration > c.now then none
       else some ({ entries := put (c.sender, id) { e with revoke := c.now, amount := 0 } s.entries },
-                 [⟨c.sender, znnTok, e.amount, false⟩])
+                 [⟨c.sender, znnTok, e.amount, .none⟩])
 
 /-- Σ of all stake entries (ZNN); cancelled entries are recorded with amount 0 -/
 def Stake.owed (s : Stake) : Nat := total (·.amount) s.entries
@@ -265,7 +280,7 @@ def reclaimHtlc (id : Hash) : Method Htlc := fun s c =>
     | some e =>
       if e.timeLocked ≠ c.sender then none
       else if c.now < e.expiration then none
-      else some ({ s with entries := erase id s.entries }, [⟨e.timeLocked, e.tok, e.amount, false⟩])
+      else some ({ s with entries := erase id s.entries }, [⟨e.timeLocked, e.tok, e.amount, .none⟩])
 
 /-- UnlockHtlcMethod.ReceiveBlock -/
 def unlockHtlc (H : HashFn) (id : Hash) (preimage : Bytes) : Method Htlc := fun s c =>
@@ -277,7 +292,7 @@ def unlockHtlc (H : HashFn) (id : Hash) (preimage : Bytes) : Method Htlc := fun 
       else if c.now ≥ e.expiration then none
       else if preimage.length > e.keyMax then none
       else if H e.hashType preimage ≠ e.hashLock then none
-      else some ({ s with entries := erase id s.entries }, [⟨e.hashLocked, e.tok, e.amount, false⟩])
+      else some ({ s with entries := erase id s.entries }, [⟨e.hashLocked, e.tok, e.amount, .none⟩])
 
 /-- Deny / AllowHtlcProxyUnlockMethod.ReceiveBlock -/
 def setProxyUnlock (allowed : Bool) : Method Htlc := fun s c =>
@@ -318,7 +333,7 @@ def depositQsr (d : Deposits) (c : Ctx) : Option Deposits :=
 def withdrawQsr (d : Deposits) (c : Ctx) : Option (Deposits × List Payout) :=
   if c.amount ≠ 0 then none
   else if depositOf d c.sender = 0 then none
-  else some (erase c.sender d, [⟨c.sender, qsrTok, depositOf d c.sender, false⟩])
+  else some (erase c.sender d, [⟨c.sender, qsrTok, depositOf d c.sender, .none⟩])
 
 /-- checkAndConsumeQsr -/
 def consumeQsr (d : Deposits) (owner : Addr) (required : Nat) : Option Deposits :=
@@ -381,7 +396,7 @@ def registerPillar (P : Params) (name : Hash) (producer reward : Addr) (pctBlock
         some ({ s with pillars := put name ⟨c.sender, P.pillarStakeAmount, c.now, 0, producer, reward, ZV.Gen.NormalPillarType, pctBlock, pctDelegate⟩ s.pillars,
                        producing := put producer name s.producing,
                        deposits := d' },
-              [⟨tokenContract, qsrTok, required, true⟩])
+              [⟨tokenContract, qsrTok, required, .burn⟩])
 
 /-- RevokeMethod.ReceiveBlock: pays the constant PillarStakeAmount (not the recorded amount) -/
 def revokePillar (P : Params) (name : Hash) (nameOk : Bool) : Method Pillar := fun s c =>
@@ -394,7 +409,7 @@ def revokePillar (P : Params) (name : Hash) (nameOk : Bool) : Method Pillar := f
       else if p.stakeAddr ≠ c.sender then none
       else if !revocable P.pillarLock P.pillarRevoke p.regTime c.now then none
       else some ({ s with pillars := put name { p with revokeTime := c.now, amount := 0 } s.pillars },
-                 [⟨p.stakeAddr, znnTok, P.pillarStakeAmount, false⟩])
+                 [⟨p.stakeAddr, znnTok, P.pillarStakeAmount, .none⟩])
 
 /-- UpdatePillarMethod.ReceiveBlock -/
 def updatePillar (name : Hash) (producer reward : Addr) (pctBlock pctDelegate : Nat) (nameOk : Bool) : Method Pillar := fun s c =>
@@ -494,7 +509,7 @@ def revokeSentinel (P : Params) : Method Sentinel := fun s c =>
       if e.revokeTime ≠ 0 then none
       else if !revocable P.sentinelLock P.sentinelRevoke e.regTime c.now then none
       else some ({ s with entries := put c.sender { e with revokeTime := c.now, znn := 0, qsr := 0 } s.entries },
-                 [⟨c.sender, znnTok, e.znn, false⟩, ⟨c.sender, qsrTok, e.qsr, false⟩])
+                 [⟨c.sender, znnTok, e.znn, .none⟩, ⟨c.sender, qsrTok, e.qsr, .none⟩])
 
 def sentinelDeposit : Method Sentinel := fun s c =>
   match depositQsr s.deposits c with
@@ -564,13 +579,13 @@ def cancelLiquidityStake (id : Hash) : Method Liquidity := fun s c =>
     | some e =>
       if e.expiration > c.now then none
       else some ({ s with entries := put (c.sender, id) { e with revoke := c.now, amount := 0 } s.entries },
-                 [⟨c.sender, e.tok, e.amount, false⟩])
+                 [⟨c.sender, e.tok, e.amount, .none⟩])
 
 /-- BurnZnnMethod.ReceiveBlock (accelerator spork active; `isSpork` = the caller is the spork address, checked by
     ValidateSendBlock): burns `amount` ZNN out of the contract's balance, whatever that balance is made of. The Go
     method's own "balance ≥ amount, else error" is the funds check of `applyPayout` followed by the refund. -/
 def liquidityBurnZnn (amount : Nat) (isSpork : Bool) : Method Liquidity := fun s _ =>
-  if !isSpork then none else some (s, [⟨tokenContract, znnTok, amount, true⟩])
+  if !isSpork then none else some (s, [⟨tokenContract, znnTok, amount, .burn⟩])
 
 /-- what the liquidity contract owes its stakers in one token -/
 def liquidityOwed (s : Liquidity) (tok : Tok) : Nat := total (fun e => if e.tok = tok then e.amount else 0) s.entries
@@ -584,16 +599,84 @@ def LiquidityOp.method (P : Params) : LiquidityOp → Method Liquidity
   | .stake d => liquidityStake P d
   | .cancel id => cancelLiquidityStake id
 
+/-! ### bridge.go: unwrap requests and their redemption
+(administration, time challenges, wrap requests and fees excluded; what the methods read from the administrator's
+configuration — may the bridge act, the token pair found — and the TSS signature check are oracle inputs) -/
+
+structure UnwrapReq where
+  regHeight : Nat          -- RegistrationMomentumHeight
+  toAddr : Addr            -- ToAddress named in the signed request
+  tokenAddress : Nat       -- foreign token address (opaque)
+  tok : Tok                -- TokenStandard of the pair found at registration
+  amount : Nat
+  redeemed : Nat           -- uint8 flags
+  revoked : Nat
+  deriving DecidableEq, Repr
+
+structure Bridge where
+  requests : List ((Hash × Nat) × UnwrapReq) := []     -- key (transaction hash, log index)
+  deriving Repr
+
+/-- the token pair the code finds in the network configuration -/
+structure PairInfo where
+  tok : Tok
+  redeemable : Bool
+  owned : Bool
+  redeemDelay : Nat
+  deriving DecidableEq, Repr
+
+/-- UnwrapTokenMethod.ReceiveBlock. `canAct` = CanPerformAction succeeds; `pair` = CheckNetworkAndPairExist (none = unknown
+    network or no pair); `sigOk` = CheckECDSASignature(GetUnwrapTokenRequestMessage(param), TSS key, signature). -/
+def unwrapToken (canAct sigOk : Bool) (pair : Option PairInfo) (tx : Hash) (log : Nat) (to : Addr) (tokenAddress amount : Nat) : Method Bridge := fun s c =>
+  if amount = 0 then none
+  else if c.amount ≠ 0 then none
+  else if !canAct then none
+  else if (lookup (tx, log) s.requests).isSome then none
+  else match pair with
+    | none => none
+    | some p =>
+      if !p.redeemable then none
+      else if !sigOk then none
+      else some ({ requests := put (tx, log) ⟨c.height, to, tokenAddress, p.tok, amount, 0, 0⟩ s.requests }, [])
+
+/-- RedeemMethod.ReceiveBlock. `pair` = the first pair of the request's network whose token standard or token address
+    matches the request. For a token not owned by the bridge the Go method's own balance check is the funds check of
+    `applyPayout` followed by the refund. -/
+def redeemUnwrap (canAct : Bool) (pair : Option PairInfo) (tx : Hash) (log : Nat) : Method Bridge := fun s c =>
+  if c.amount ≠ 0 then none
+  else if !canAct then none
+  else match lookup (tx, log) s.requests with
+    | none => none
+    | some r =>
+      if r.redeemed > 0 ∨ r.revoked > 0 then none
+      else match pair with
+        | none => none
+        | some p =>
+          if c.height - r.regHeight < p.redeemDelay then none
+          else
+            let s' : Bridge := { requests := put (tx, log) { r with redeemed := 1 } s.requests }
+            if p.owned then some (s', [⟨tokenContract, p.tok, 0, .mint p.tok r.amount r.toAddr⟩])
+            else some (s', [⟨r.toAddr, p.tok, r.amount, .none⟩])
+
+/-- RevokeUnwrapRequestMethod.ReceiveBlock; `isAdmin` = the caller is the bridge administrator -/
+def revokeUnwrap (isAdmin : Bool) (tx : Hash) (log : Nat) : Method Bridge := fun s c =>
+  if c.amount ≠ 0 then none
+  else match lookup (tx, log) s.requests with
+    | none => none
+    | some r =>
+      if !isAdmin then none
+      else some ({ requests := put (tx, log) { r with revoked := 1 } s.requests }, [])
+
 /-! ### vm.go: generateEmbeddedReceive / rollbackEmbedded -/
 
 abbrev Bal := List (Tok × Nat)
 def Bal.get (b : Bal) (t : Tok) : Nat := (lookup t b).getD 0
 def Bal.set (b : Bal) (t : Tok) (v : Nat) : Bal := put t v b
 
-/-- applySend of one descendant block: a send to an embedded address must name a method of that contract (only the
-    token contract's Burn with a positive amount is ever produced by the modelled methods); enoughFunds; SubBalance -/
+/-- applySend of one descendant block: a send to an embedded address must name a method of that contract and pass its
+    validation; enoughFunds; SubBalance -/
 def applyPayout (b : Bal) (p : Payout) : Option Bal :=
-  if isEmbedded p.dst && !(p.dst == tokenContract && p.burn && decide (p.amt > 0)) then none
+  if isEmbedded p.dst && !p.call.validFor p.dst p.amt then none
   else if p.tok ≠ zeroTok ∧ b.get p.tok < p.amt then none
   else some (b.set p.tok (b.get p.tok - p.amt))
 
@@ -604,7 +687,7 @@ def applyPayouts (b : Bal) : List Payout → Option Bal
     | some b' => applyPayouts b' ps
 
 /-- the refund of rollbackEmbedded -/
-def refundOf (c : Ctx) : List Payout := if c.amount > 0 then [⟨c.sender, c.token, c.amount, false⟩] else []
+def refundOf (c : Ctx) : List Payout := if c.amount > 0 then [⟨c.sender, c.token, c.amount, .none⟩] else []
 
 structure Result (σ : Type) where
   st : σ
